@@ -39,10 +39,8 @@ def main(ctx):
             i = out.find(l)
             detail = out[i:i + 1200]
             if "g++ round trip" in what:
-                # the compiler decodes an emitted literal to something else than the text although the
-                # proved guard says it is right (or vice versa): the property's own observation fails
-                ctx.spec_fail("emitted C++ literal does not decode to the extracted text where the proved guard says it must",
-                              detail=detail)
+                # the compiler decodes an emitted literal to something else than the text: the property's own observation fails
+                ctx.spec_fail("emitted C++ literal does not decode to the extracted text", detail=detail)
             elif "with XML = without" in what:
                 ctx.spec_fail("generated code with XML differs from code without XML by more than the literals", detail=detail)
             else:
@@ -229,13 +227,11 @@ def replay_finding(e):
     """True if the witness still shows the defect on the real code"""
     w = e["witness"]
     if w["kind"] == "escape":
-        text = w["text"]
-        lit = ', "' + repr(text)[1:-1].replace('"', r'\"') + '"'
-        import inspect
-        import gtwrap.pybind_wrapper as pw
-        src = inspect.getsource(pw.PybindWrapper._wrap_method)
-        uses_repr = "repr(self.xml_parser.extract_docstring" in src
-        return uses_repr and w["bad_fragment"] in lit
+        # end to end: the literal the real `_wrap_method` emits for this documentation text
+        sys.path.insert(0, HERE)
+        import c17_impl
+        esc, _ = c17_impl.real_escape_expr()
+        return w["bad_fragment"] in esc(w["text"])
     if w["kind"] == "indexerror":
         import tempfile, shutil
         from gtwrap.xml_parser.xml_parser import XMLDocParser
